@@ -558,3 +558,38 @@ def rule_latest(ctx, R):
                           "%s can return success (line %d) on a path that neither hands the score to SkipList::insert nor established by an exact `==` that the stored score already equals it: the member keeps a stale score and position" % (fn.split("::")[-1], b.bb_line(i)), b.loc(i),
                           ["bb%d line %d" % (x, b.bb_line(x)) for x in ex.witness(b, i)][-10:])
     R.floor("score_writer_success_returns", n)
+
+
+def rule_nan_frontends(ctx, R):
+    """`a refused multi-member ZADD adds nothing`: the engine refuses NaN per call, i.e. after the
+    earlier pairs of the same command were written.  So each front end (direct handler, script-side
+    parser) must refuse NaN itself, for every score it parses, before anything is handed to the
+    engine: every `str::parse::<f64>` in a function that builds a ZADD/ZINCRBY command or calls
+    zadd/zincrby is followed by an is_nan()/is_finite() test of that very value"""
+    PARSE_F64 = re.compile(r"^core::str::<impl str>::parse::<f64>$")
+    n = 0
+    for fn, b in sorted(ctx.prog.bodies.items()):
+        if "::tests::" in fn or not fn.startswith(("network::server::", "storage::commands::")):
+            continue
+        parses = [i for i, t in b.calls() if PARSE_F64.match(t["f"] or "")]
+        if not parses:
+            continue
+        tree = shared.closure_tree(ctx, ctx.prog.bodies.get(b.encl) or b) if b.kind == "Closure" else shared.closure_tree(ctx, b)
+        # ZADD only: it is the multi-member command (a single-score ZINCRBY is refused by the engine whole)
+        front = any(callee(t) == ENGINE + "zadd" for body in tree for _, t in body.calls()) or \
+            any(st["k"] == "=" and st["r"]["k"] == "agg" and re.search(r"::ZAdd$", st["r"]["a"]) for body in tree for bb in body.bbs for st in bb["s"])
+        if not front:
+            continue
+        tests = []
+        for body in tree:
+            for j, tj in body.calls():
+                if NAN_TEST.search(tj["f"] or "") and tj["a"] and not op_is_const(tj["a"][0]):
+                    tests.append((body, j, prov.operand_origins(body, tj["a"][0], deep=True)))
+        for k, i in enumerate(parses):
+            n += 1
+            ok = any(body is b and any(r[0] == "call" and r[2] == i for r in P.roots) for body, j, P in tests)
+            R.inst(fn, "parsed-score#%d" % k, {"function": fn, "at": b.loc(i), "nan_tested_here": ok})
+            if not ok:
+                R.finding(fn, "parsed-score#%d:nan-not-refused-before-the-engine" % k,
+                          "%s parses a score (line %d) and passes it on without an is_nan() test of that value: the engine refuses NaN only when it reaches that pair, after the earlier pairs of the same ZADD were written -- a refused multi-member ZADD adds members" % (fn.split("::")[-1], b.bb_line(i)), b.loc(i))
+    R.floor("score_parses_in_zadd_front_ends", n)
